@@ -8,6 +8,9 @@ pinned forms below (the forms PacketRecv.v was transcribed from).  Anything else
 changed callee or argument, a different order of two statements, an extra `return` / `continue` -- raises GenError:
 gen/C02Recv.v is deleted and everything that depends on it (PacketRecv.v, its proofs, props/C02.v) stops compiling.
 
+The statements of the loop BEFORE that point (header parsing, routing, server initialisation) are C05's; here they are only
+checked not to write any attribute of the modelled state and not to call _discard_epoch / close / decrypt_packet / ... .
+
 Writes coq/gen/C02Recv.v:
 
   RECV_SKELETON : list Z          the event codes in source order (proofs/PacketRecvProofs.v packet_recv_as_modelled compares
@@ -190,7 +193,7 @@ MODELLED_CALLS = ("_discard_epoch", "close", "_set_state", "teardown", "update_k
                   "reschedule_data", "_close_begin", "_close_end", "setattr")
 
 
-def _writes_modelled(node):
+def _writes_modelled(node, exits=True):
     for n in ast.walk(node):
         if isinstance(n, (ast.Assign, ast.AugAssign, ast.AnnAssign, ast.Delete)):
             targets = n.targets if isinstance(n, (ast.Assign, ast.Delete)) else [n.target]
@@ -204,7 +207,7 @@ def _writes_modelled(node):
                 return "calls %s" % name
             if isinstance(n.func, ast.Attribute) and isinstance(n.func.value, ast.Attribute) and n.func.value.attr in MODELLED_ATTRS:
                 return "calls a method of %s" % _u(n.func.value)
-        if isinstance(n, (ast.Return, ast.Continue, ast.Break, ast.Raise)):
+        if exits and isinstance(n, (ast.Return, ast.Continue, ast.Break, ast.Raise)):
             return "leaves the loop (%s)" % type(n).__name__
     return None
 
@@ -305,11 +308,12 @@ def read_all():
     idx = [i for i, s in enumerate(stmts) if _norm(s) == PINNED[0][1][0]]
     if len(idx) != 1:
         raise GenError("`epoch = get_epoch(header.packet_type)` occurs %d times in the packet loop" % len(idx))
-    # nothing before the marker may already touch what the model starts from
+    # nothing before the marker (header parsing, routing decisions, server initialisation: C05's ConnDgram.v) may already write
+    # what the model starts from, e.g. latch the peer CID before the packet has been authenticated (seeded/C02/seed2)
     for s in stmts[:idx[0]]:
-        for n in ast.walk(s):
-            if isinstance(n, ast.Call) and isinstance(n.func, ast.Attribute) and n.func.attr in ("decrypt_packet", "_payload_received", "_discard_epoch"):
-                raise GenError("%s is called before the crypto context is selected" % n.func.attr)
+        w = _writes_modelled(s, exits=False)
+        if w:
+            raise GenError("a statement before the crypto context is selected %s: %s" % (w, _norm(s)[:300]))
     rest = stmts[idx[0]:]
     skeleton, masks, pos = [], None, 0
     for code, forms in PINNED:
